@@ -531,7 +531,145 @@ def p12(led, rid, ctx):
     led.floor(rid, "root-level skips in conflict analysis", n, 2)
 
 
+def p13(led, rid, ctx):
+    """TABLE over writer and reader of the initial-domain mark.  `is_initial_bound([x != v])` decides
+    'nothing to explain' by comparing the trail position of the removal with
+    `initial_bounds_below_trail`; the writers set the mark from the trail length after the last
+    entry that belongs to the initial domain.  For every trail length n in 1..5 and position p in
+    0..n+1, the reader's comparison under each writer's expression must say 'initial' exactly for
+    p < n: an entry pushed after the variable was created has a reason the proof must see."""
+    from ..predalg import ev, Unknown
+    lib = ctx.lib
+    FIELD = "initial_bounds_below_trail"
+    rd = lib.method("Assignments", "is_initial_bound")
+    reader = None
+    for path in SymExec(rd, max_paths=64).run():
+        if path.diverged or path.ret is None:
+            continue
+        if any(FIELD in x.fields() for x in path.ret.walk()):
+            reader = path.ret
+    if reader is None:
+        raise AnchorMissing("the comparison of Assignments::is_initial_bound with " + FIELD)
+    writers = []
+    for f in lib.fns.values():
+        if "/tests" in f.file or not f.file.endswith("assignments.rs") or (f.impl_trait or "").rsplit("::", 1)[-1] in ("Clone", "Default", "Debug"):
+            continue
+        R = None
+        for bi, b in enumerate(f.blocks):
+            for st in b["stmts"]:
+                if st["s"] != "assign":
+                    continue
+                names = [x.get("name") for x in st["dst"]["proj"] if "field" in x]
+                if names[-1:] == [FIELD]:
+                    R = R or resolver(f)
+                    writers.append((f, bi, "%s:%d" % (f.file, st["line"]), R.rvalue(st["rv"])))
+        # constructor: the field of the aggregate is an argument; take the callers' expressions
+        for agbb, _i, st in aggregates(f, "IntegerDomain"):
+            R = R or resolver(f)
+            ag = R.rvalue(st["rv"])
+            val = dict(zip(ag.d or [], ag.c)).get(FIELD)
+            if val is None:
+                continue
+            e = peel(val, calls=None)
+            if e.k == "arg":
+                for g in lib.fns.values():
+                    if "/tests" in g.file:
+                        continue
+                    Rg = None
+                    for c in g.calls:
+                        if (c.resolved or c.defn) == f.defn and len(c.args) >= e.a:
+                            Rg = Rg or resolver(g)
+                            writers.append((g, c.bb, c.span, Rg.operand(c.args[e.a - 1])))
+            else:
+                writers.append((f, agbb, f.span, e))
+    n = 0
+    for f, bb, span, e in writers:
+        bad = None
+        try:
+            for ln in range(1, 6):
+                def wl(x, ln=ln):
+                    if x.k == "call" and x.a.name == "len" and any("trail" in y.fields() for y in x.walk()):
+                        return ln
+                    return None
+                mark = ev(e, wl)
+                for pos in range(0, ln + 2):
+                    def rl(x, mark=mark, pos=pos):
+                        if x.k == "proj" and FIELD in x.fields():
+                            return mark
+                        if x.k == "call" and x.a.name in ("unwrap_or_else", "unwrap", "expect", "get_trail_position"):
+                            return pos
+                        return None
+                    got = bool(ev(reader, rl))
+                    if got != (pos < ln) and bad is None:
+                        bad = ("with %d entries on the trail when the mark is set (%s), the entry at position %d "
+                               "is classified %s" % (ln, show(e)[:60], pos,
+                                                     "as part of the initial domain although it was pushed afterwards: "
+                                                     "its reason is never explained to the proof, and a nogood that "
+                                                     "depends on it is not derivable from its hints" if got else
+                                                     "as a propagation although it belongs to the initial domain"))
+        except Unknown as u:
+            bad = "the mark %s cannot be evaluated (%s)" % (show(e)[:60], u)
+        # nothing is pushed on the trail after the mark was taken
+        later = [c for c in f.calls if c.name in ("push", "remove_value_from_domain", "tighten_lower_bound",
+                                                  "tighten_upper_bound", "make_assignment")
+                 and c.bb != bb and f.cfg.reaches(bb, [c.bb])
+                 and (c.name != "push" or (c.args and "trail" in resolver(f).operand(c.args[0]).fields()))]
+        if later and bad is None:
+            bad = "the trail grows (%s) after the mark was taken" % later[0].name
+        n += 1
+        led.check(bad is None, rid, "%s:initial-mark" % f.name, span, "initial ⇔ position < length at the mark, n = 1..5",
+                  "%s: %s" % (f.name, bad))
+    led.floor(rid, "writers of the initial-domain mark", n, 2)
+
+
+def p14(led, rid, ctx):
+    """TAINT: the constraint tag a model gives to `post` / `implied_by` reaches every propagator and
+    sub-constraint posted on its behalf.  The tag is what the inferences of those propagators are
+    labelled with; without it the proof attributes them to no constraint."""
+    from .C09 import closure_seeds
+    lib = ctx.lib
+    n = 0
+
+    def is_tag(ty):
+        return "Option<" in ty and "NonZero" in ty
+
+    for imp in lib.impls_of("constraints::Constraint"):
+        if "/tests" in imp["span"]:
+            continue
+        wname = (imp.get("self_adt") or imp["self_ty"]).rsplit("::", 1)[-1]
+        for meth in ("post", "implied_by"):
+            f = lib.impl_fn(imp, meth)
+            if f is None:
+                continue
+            tag = [a["local"] for a in f.args if is_tag(a["ty"])]
+            if not tag:
+                continue
+            tainted = forward(f, tag, effects=False)
+            bodies = [(f, tainted)]
+            for g in f.closures:
+                seeds = closure_seeds(lib.fns.get(g.direct_parent) or f, g, tainted)
+                bodies.append((g, forward(g, seeds, effects=False) if seeds else set()))
+            for g, t in bodies:
+                for c in g.calls:
+                    tys = c.term.get("arg_tys", [])
+                    slots = [a for a, ty in zip(c.args, tys) if is_tag(ty)]
+                    if not slots or c.name not in ("post", "implied_by", "add_propagator", "add_tagged_propagator",
+                                                   "new_propagator", "add_clause", "add_nogood"):
+                        continue
+                    n += 1
+                    dep = all(any(l in t for l in operand_locals(a)) for a in slots)
+                    led.check(dep, rid, "%s::%s:%s" % (wname, meth, c.name), c.span, "receives the caller's tag",
+                              "%s::%s calls %s with a tag that does not come from its own `tag` argument: the "
+                              "propagators created there log their inferences without the constraint label the "
+                              "model gave, and the proof cannot attribute them" % (wname, meth, c.name))
+    led.floor(rid, "tag-carrying posting calls", n, 20)
+
+
 def run(ctx, led):
+    from . import C04 as _C04
+    run_rule(led, "P15", "the optimality conclusion of the proof is stated on the scaled objective (shared with C04-O9)", _C04.o9, ctx)
+    run_rule(led, "P14", "TAINT: the constraint tag given to post / implied_by reaches every posting call made on its behalf", p14, ctx)
+    run_rule(led, "P13", "TABLE: the initial-domain mark and the comparison in is_initial_bound agree on which trail entries need no explanation", p13, ctx)
     run_rule(led, "P1", "every reason that is computed for use is logged as an inference (MUST-PASS)", p1, ctx)
     run_rule(led, "P2", "complete_proof logs the conflict, finalises, and ends with the empty nogood", p2, ctx)
     run_rule(led, "P3", "learned nogoods are logged before they are added; unit ids are stored under "
